@@ -16,6 +16,7 @@ PKG=$(echo "$DEMOCMD" | grep -o '\./[a-z]*/ *$' | tr -d ' ' | tail -1)
 [ -z "$PKG" ] && PKG=$(echo "$DEMOCMD" | grep -o '\./[a-z]*/' | tail -1)
 RUN=$(echo "$DEMOCMD" | tr -d "'\"" | grep -o '\-run [A-Za-z0-9_|]*' | tail -1)
 TAGS=""; echo "$DEMOCMD" | grep -q 'tags verif' && TAGS="-tags verif"
+echo "$DEMOCMD" | grep -q -e ' -race' && TAGS="$TAGS -race"
 res() { echo "$1" >> "$WT/.confirm.log"; echo "$1"; }
 : > "$WT/.confirm.log"
 # demo without the change
